@@ -62,6 +62,8 @@ func litFuncValue(name, lit string) (uint64, int, bool) {
 	switch {
 	case name == "strlen":
 		return uint64(len(lit)), 64, true
+	case name == "padded":
+		return b2u(strings.TrimSpace(lit) != lit), 0, true
 	case strings.HasPrefix(name, "pu_"):
 		// pu_<base>_<bits>_(ok|val)
 		f := strings.Split(name, "_")
@@ -268,6 +270,39 @@ func (i *interpreter) symFields(s symstr) value {
 	return out
 }
 
+// symTrimSpace models strings.TrimSpace on an atom: either the atom has no
+// surrounding white space and is returned as it is, or it has - then the
+// result is a fresh atom without any, and the padded original is refused by
+// every parser of the model (net.ParseCIDR, net.ParseIP and time.ParseDuration
+// accept no surrounding blanks). The inversion renders a padded atom as a
+// blank followed by the text of its trimmed form.
+func (i *interpreter) symTrimSpace(s symstr) value {
+	w := i.w
+	for _, f := range w.strFacts {
+		if f.kind == "trim" && f.src == s.e {
+			if f.n == 0 {
+				return s
+			}
+			return symstr{f.outs[1]}
+		}
+	}
+	padded := mkUF("padded", 0, s.e)
+	w.stubs["strings.TrimSpace on an atom: padded or not; a padded atom fails every parser of the model"]++
+	if !w.decide(padded) {
+		w.strFacts = append(w.strFacts, strFact{kind: "trim", src: s.e, outs: []*Term{padded, s.e}, n: 0})
+		return s
+	}
+	t := w.freshStr("trimmed")
+	w.assume(mkNot(mkEq(s.e, t)))
+	w.assume(mkNot(mkUF("padded", 0, t)))
+	for _, okf := range []string{"parsecidr_ok", "parseip_ok", "parsedur_ok"} {
+		w.assume(mkNot(mkUF(okf, 0, s.e)))
+	}
+	w.strFacts = append(w.strFacts, strFact{kind: "trim", src: s.e, outs: []*Term{padded, t}, n: 1})
+	w.auxStr = append(w.auxStr, s.e)
+	return symstr{t}
+}
+
 func sepCannotOccurInDottedQuad(sep string) bool {
 	for _, c := range sep {
 		if c == '.' || (c >= '0' && c <= '9') {
@@ -410,6 +445,9 @@ func (iv *inverter) compute(t *Term) string {
 		abs, known = iv.m.str[t.name]
 	}
 	// structured by a stub? (structure wins over an accidental equality with a literal)
+	if f := iv.factFor("trim", t); f != nil && f.n == 1 {
+		return " " + iv.value(f.outs[1])
+	}
 	if f := iv.factFor("fields", t); f != nil {
 		if f.n == 0 {
 			if known && abs == "" {
